@@ -129,8 +129,6 @@ def resOf (r : Res Unit) : Reply := { txt := printRes r }
 def parseOp (hexop : String) : Option (Option Op) :=
   (unhexStr hexop).map Op.ofString?
 
-def assignNew (o : Obj) (new : Nat) : Obj := if o.uuid == 0 then { o with uuid := new } else o
-
 def parseNews (s : String) : Option (List Nat) :=
   if s.isEmpty then some [] else (s.splitOn ",").mapM String.toNat?
 
@@ -254,18 +252,7 @@ def DState.exec (d : DState) (op : String) (args : List String) (impl : String) 
   | "ins", [o, nw] => do
     let o ← parseObj o
     let n ← (kv [nw] "new").bind String.toNat?
-    -- the uuid is assigned after validation; an object that fails validation keeps none
-    let E' : Env := E
-    let (c, r) := match d.c.schema with
-      | (c0, .ok l) =>
-        let o1 := E'.canon l.descs (E'.transform o)
-        if !E'.validate o1 then (c0, Res.err Err.invalid) else
-        match Coll.insertCore E' c0 l (assignNew o1 n) true with
-        | (c, .ok _) => (c, .ok ())
-        | (c, .err e) => (c, .err e)
-        | (c, .panic) => (c, .panic)
-      | (c0, .err e) => (c0, .err e)
-      | (c0, .panic) => (c0, .panic)
+    let (c, r) := d.c.insert E o n
     pure ({ d with c := c }, resOf r)
   | "many", _ => do
     let wrong ← kv args "wrong"
